@@ -16,8 +16,8 @@
 #include "vrt_fiber.h"
 #include "drv_ext.h"
 
-#define MAXF 16
-#define MAXOPS 32
+#define MAXF 96
+#define MAXOPS 224
 typedef struct {
   char op[16];
   char a1[24];
